@@ -261,6 +261,16 @@ def check(model: Model, run: Run) -> None:
     if n10 < 1:
         run.cannot('no number-or-string emitter found (AttributeCollection._as_json_scalar)')
 
+    # ------------------------------------------------------------------ R11 one member per key
+    run.rule(
+        'C13.R11',
+        'no duplicate key: where a json() builds an object out of the json() of the elements of a list the peer fills (one '
+        '"key": value member per TLV, the key fixed by the TLV type), a repeated TLV repeats the key - unless the decoder refuses '
+        'the repetition or the members are grouped into an array',
+        floor=3,
+    )
+    _r11_member_lists(model, run)
+
     # ------------------------------------------------------------------ R6 every event kind has an emitter
     run.rule('C13.R6', 'every message kind a peer can trigger has an emitter: each registered message type has a @register_process entry and each encoder class defines every method Processes calls on it', floor=20)
     _r6_emitters(model, run, folder)
@@ -565,3 +575,145 @@ def _r8_fragment_kinds(model: Model, run: Run) -> None:
                 run.ok(inst, 'elements: %s' % (sorted(labs) or 'announced / withdrawn routes'))
     if n < 20:
         run.cannot('only %d fragment kinds / list contexts examined' % n)
+
+
+# ---------------------------------------------------------------------------------------------- R11
+def _json_kind(model: Model, f: FuncInfo) -> str | None:
+    import re
+
+    kinds = set()
+    for r in walk_no_nested(f.node):
+        if isinstance(r, ast.Return) and r.value is not None:
+            v = Loc(model, f).resolve(r.value)
+            lit = _first_literal(v if v is not None else r.value)
+            if lit is None:
+                kinds.add('?')
+            elif lit[0] in '{[':
+                kinds.add('value')
+            elif lit[0] == '"':
+                kinds.add('member' if re.match(r'"[^"]*"\s*:', lit) else 'value')
+            else:
+                kinds.add('?')
+    kinds.discard('?')
+    return next(iter(kinds)) if len(kinds) == 1 else None
+
+
+def _r11_member_lists(model: Model, run: Run) -> None:
+    n = 0
+    for q, f in sorted(model.funcs.items()):
+        if '.bgp.message.' not in q or f.name != 'json' or f.cls is None:
+            continue
+        L = Loc(model, f)
+        sites = []
+        for node in walk_no_nested(f.node):
+            if isinstance(node, (ast.GeneratorExp, ast.ListComp)) and len(node.generators) == 1:
+                g = node.generators[0]
+                if isinstance(node.elt, ast.Call) and isinstance(node.elt.func, ast.Attribute) and node.elt.func.attr == 'json' and dotted(node.elt.func.value) == dotted(g.target):
+                    sites.append((g.iter, node.elt, None))
+            if isinstance(node, ast.For):
+                for c in ast.walk(node):
+                    if isinstance(c, ast.Call) and isinstance(c.func, ast.Attribute) and c.func.attr == 'json' and dotted(c.func.value) == dotted(node.target):
+                        sites.append((node.iter, c, node))
+        for it, call, loop in sites:
+            if 'self' not in L.expand(it):
+                continue
+            # what the elements render as: members ("key": ...) or values
+            kinds = set()
+            for cq in model.callees_cha(f.module, call):
+                h = model.funcs.get(cq)
+                if h is not None and h.name == 'json':
+                    k = _json_kind(model, h)
+                    if k:
+                        kinds.add(k)
+            if not kinds or kinds == {'member', 'value'}:
+                # untyped or mixed elements: decided by where the joined text lands - right after an opening brace it is a list of members
+                kinds = {'member'} if _lands_in_object(model, f, call) else {'value'}
+            if kinds != {'member'}:
+                continue
+            n += 1
+            # grouped into an array on the way? (`if isinstance(tlv, X): segment_lists.append(tlv.json())` then "key": [ ... ])
+            grouped = False
+            if loop is not None:
+                for t, pol in flat_guards(f.node, call, parent_map(f.node)):
+                    if isinstance(t, ast.Call) and isinstance(t.func, ast.Name) and t.func.id == 'isinstance' and pol:
+                        grouped = True  # this branch collects one type apart (emitted as an array)
+            # does the decoder of this class refuse a repeated type?
+            ci = f.cls
+            refuses = False
+            for mname, mf in ci.methods.items():
+                if mname.startswith(('unpack', 'from_packet', '_parse')):
+                    src = norm(mf.node)
+                    if ('seen' in src or 'duplicate' in src.lower() or 'more than once' in src) and 'raise' in src:
+                        refuses = True
+            inst = '%s: members from %s' % (short(q), L.expand(it)[:40])
+            if grouped or refuses:
+                run.ok(inst, 'grouped into an array' if grouped else 'the decoder refuses a repeated type')
+            else:
+                run.violation(
+                    ci.qualname,
+                    'one object member per element of %s' % L.expand(it)[:40],
+                    f.loc(call),
+                    'each element renders as the member "<key of its type>": ..., and they are joined into one object: two TLVs of one type '
+                    '(which the peer is free to send, and the decoder accepts) give the same key twice, and the consumer keeps whichever its '
+                    'parser prefers - the peer chooses which of its two values is seen',
+                )
+    if n < 3:
+        run.cannot('only %d objects assembled from element members found' % n)
+
+
+def _flatten_text(e: ast.AST, out: list) -> None:
+    """left-to-right pieces of a string expression: literal text, or the node of a non-literal piece"""
+    if isinstance(e, ast.Constant) and isinstance(e.value, str):
+        out.append(e.value)
+    elif isinstance(e, ast.JoinedStr):
+        for v in e.values:
+            _flatten_text(v.value if isinstance(v, ast.FormattedValue) else v, out)
+    elif isinstance(e, ast.BinOp) and isinstance(e.op, ast.Add):
+        _flatten_text(e.left, out)
+        _flatten_text(e.right, out)
+    elif isinstance(e, ast.Call) and isinstance(e.func, ast.Attribute) and e.func.attr == 'format' and isinstance(e.func.value, ast.Constant) and isinstance(e.func.value.value, str):
+        parts = e.func.value.value.replace('{{', '\x00').replace('}}', '\x01').split('{}')
+        for i, p_ in enumerate(parts):
+            out.append(p_.replace('\x00', '{').replace('\x01', '}'))
+            if i < len(e.args):
+                _flatten_text(e.args[i], out)
+    else:
+        out.append(e)
+
+
+def _lands_in_object(model: Model, f: FuncInfo, call: ast.Call) -> bool:
+    """Is the text produced from `call` (element.json(), joined) placed right after an opening brace?"""
+    L = Loc(model, f)
+    mark = norm(call)
+    pm = parent_map(f.node)
+    par = pm.get(id(call))
+    if isinstance(par, ast.Call) and isinstance(par.func, ast.Attribute) and par.func.attr == 'append' and isinstance(par.func.value, ast.Name):
+        mark = 'join(%s)' % par.func.value.id  # collected in a list that is joined later
+    for st in walk_no_nested(f.node):
+        vals = []
+        if isinstance(st, ast.Return) and st.value is not None:
+            vals.append(st.value)
+        if isinstance(st, ast.AugAssign):
+            vals.append(st.value)
+        cands = []
+        for v in vals:
+            cands.append(v)
+            try:
+                cands.append(ast.parse(L.expand(v), mode='eval').body)
+            except SyntaxError:
+                pass
+        for ex in cands:
+            pieces: list = []
+            _flatten_text(ex, pieces)
+            last_lit = ''
+            for pc in pieces:
+                if isinstance(pc, str):
+                    if pc.strip():
+                        last_lit = pc
+                elif mark in norm(pc):
+                    t = last_lit.rstrip()
+                    if t.endswith('{') or t.endswith(','):
+                        return True
+                    if t.endswith('['):
+                        return False
+    return False
